@@ -10,7 +10,8 @@ Definition old_lc_skeleton : skeleton :=
        true true
        true true true true
        true true true true
-       true false.
+       true false
+       true.
 
 (* ---------- state invariant for a skeleton that stores the stop error inside the once ---------- *)
 
